@@ -758,7 +758,7 @@ def c09(run):
 @check("C10")
 def c10(run):
     run.assumptions += ["failure-inducing arguments are part of the alphabet: second question, malformed and out-of-range record text, names with a 64-byte label / a forbidden byte / truncated, operations on a deleted record's cursor, renames that overflow 255 bytes, insertions that cross 8192 bytes from every starting size including packets larger than 8192, operations that must re-parse a packet whose question was deleted or whose QR bit was cleared"]
-    book_models(run, negs=("delopt",))
+    book_models(run, negs=("insertorder", "optname"))
     scen, events, facts, mine = history_run(run, "C10")
     failed = {k[7:]: v for k, v in facts.items() if k.startswith("failed:")}
     run.cov["distinct_nontrivial"] = facts.get("res:err", 0)
@@ -768,7 +768,7 @@ def c10(run):
         raise ToolError("vacuous run: no failing step for one of %s (%s)" % (need, failed))
 
 
-def book_models(run, negs=("edns", "cache", "recompute")):
+def book_models(run, negs=("edns", "cache", "recompute", "optttl")):
     """M: the size-level bookkeeping design (spec/Book.tla), repaired design: every initial packet
     with <= 1 (thorough: 2) records per section, two names, per-record compression flag, OPT anywhere,
     and every behaviour of <= 4 (thorough: 3) operations; the defect switches are negative controls."""
@@ -776,7 +776,7 @@ def book_models(run, negs=("edns", "cache", "recompute")):
         run.model("MC_Book", "MC_Book.cfg")
     else:
         run.model("MC_Book", "MC_Book_thorough.cfg", timeout=3600)
-        negs = ("edns", "cache", "iterunc", "delopt", "skip", "recompute")
+        negs = ("edns", "cache", "iterunc", "delopt", "skip", "recompute", "optttl", "optname", "insertorder")
     for n in negs:
         run.negative_control("MC_Book", "MC_Book_neg_%s.cfg" % n)
 
